@@ -17,6 +17,7 @@ import time
 import traceback
 
 ROOT = os.path.dirname(os.path.dirname(os.path.abspath(__file__)))
+OUT = os.environ.get("VERIF_OUT_DIR") or ROOT  # evidence/ and replays/ (override only for experiments against scratch trees)
 
 
 def _worker(pid, case_name, tier, seed):
@@ -68,7 +69,7 @@ def run_property(pid: str, tier: str, seed: int, jobs: int | None = None, only=N
     t0 = time.time()
     sys.path.insert(0, ROOT)
     import shutil
-    shutil.rmtree(os.path.join(ROOT, "replays", pid), ignore_errors=True)  # replays of an earlier run are stale
+    shutil.rmtree(os.path.join(OUT, "replays", pid), ignore_errors=True)  # replays of an earlier run are stale
     mod = importlib.import_module(f"harness.{pid.lower()}")
     names = list(mod.cases(tier, seed))
     if only:
@@ -228,8 +229,8 @@ def finish(pid, tier, seed, mod, reports, wall):
         ),
         assumptions=getattr(mod, "ASSUMPTIONS", []),
     )
-    os.makedirs(os.path.join(ROOT, "evidence"), exist_ok=True)
-    with open(os.path.join(ROOT, "evidence", f"{pid}.json"), "w") as f:
+    os.makedirs(os.path.join(OUT, "evidence"), exist_ok=True)
+    with open(os.path.join(OUT, "evidence", f"{pid}.json"), "w") as f:
         json.dump(ev, f, indent=1, default=str)
     code = 0
     if violations:
